@@ -48,7 +48,7 @@ def generate(master, index, tier):
         "items": items,
         "driver": rng.choice(("iterate", "read", "read")),
         "max_none": rng.choice((0, 1, 3, 8)),
-        "opts": {"quitonerror": rng.choice((0, 1, 2)), "labelmsm": rng.choice((1, 2)), "handler": rng.random() < 0.5},
+        "opts": {"quitonerror": rng.choice((0, 1, 2)), "labelmsm": rng.choice((1, 2)), "handler": rng.choice((False, False, "method", "function", "collector", "falsy"))},
         "sched": sched,
     }
 
@@ -95,8 +95,7 @@ def execute(scn):
     budget = 8 * len(data) + 40 * len(scn.get("decisions", scn.get("sched", {}).get("aims", ()))) + 800
     st = W.Stream(kind, data, decider, budget, rawbuf=scn.get("rawbuf", 64))
     o = scn["opts"]
-    calls = []
-    kw = {"errorhandler": calls.append} if o.get("handler") else {}
+    kw, calls = W.make_handler(o.get("handler"))
     viol = None
     events = []
     try:
